@@ -26,4 +26,13 @@ contract Wrapped {
     ) public pure returns (uint256) {
         return ys.length + more.length;
     }
+
+    function spread(uint256 a, uint256 b, uint256 d, uint256 e) public pure returns (uint256) {
+        uint256 c = a +
+            b * d -
+            e / b;
+        return c *
+            (a -
+             b);
+    }
 }
